@@ -105,6 +105,16 @@ def generic_aggregate(
             f"Expected engine to be one of ['flox', 'numpy', 'numba', 'numbagg']. Received {engine} instead."
         )
 
+    if (
+        isinstance(func, str)
+        and "sum_of_squares" in func
+        and dtype is not None
+        and array.dtype.kind in "iu"
+        and np.dtype(dtype).itemsize > array.dtype.itemsize
+    ):
+        # square in the (wider) intermediate dtype: the squares of narrow integers wrap in the input dtype
+        array = array.astype(dtype)
+
     group_idx = np.asarray(group_idx, like=array)
 
     with warnings.catch_warnings():
